@@ -1774,12 +1774,13 @@ func (e *CoreExtension) filterMerge(value interface{}, args ...interface{}) (int
 
 	// Handle merging maps
 	if rv.Kind() == reflect.Map {
-		// Create a new map with the same key and value types
-		resultMap := reflect.MakeMap(rv.Type())
+		// The result is a hash of arbitrary values under string keys, like a hash literal: the
+		// arguments need not have the key and value types of value
+		resultMap := make(map[string]interface{}, rv.Len())
 
 		// Copy original values
 		for _, key := range rv.MapKeys() {
-			resultMap.SetMapIndex(key, rv.MapIndex(key))
+			resultMap[mapKeyString(key)] = rv.MapIndex(key).Interface()
 		}
 
 		// Merge values from the arguments
@@ -1787,12 +1788,12 @@ func (e *CoreExtension) filterMerge(value interface{}, args ...interface{}) (int
 			argRv := reflect.ValueOf(arg)
 			if argRv.Kind() == reflect.Map {
 				for _, key := range argRv.MapKeys() {
-					resultMap.SetMapIndex(key, argRv.MapIndex(key))
+					resultMap[mapKeyString(key)] = argRv.MapIndex(key).Interface()
 				}
 			}
 		}
 
-		return resultMap.Interface(), nil
+		return resultMap, nil
 	}
 
 	return value, nil
